@@ -244,7 +244,9 @@ func responseHandler(ctx context.Context, s types.Store, w http.ResponseWriter, 
 		http.Error(w, errorMsg, http.StatusBadRequest)
 		return
 	}
-	notFoundErrs := make(chan error, 1)
+	// postResponse reports up to two errors (one per concurrent store write);
+	// with room for only one, the second send blocked forever and the call hung.
+	notFoundErrs := make(chan error, 2)
 	log.Printf("Posting a response [%q]", response.RequestID)
 	postResponse(ctx, s, response, notFoundErrs)
 	close(notFoundErrs)
